@@ -44,6 +44,13 @@ def worker(k):
             prop = meta.get("breaks_property") or sid.split("-")[0]
             rc, out = sh("git apply %spatch.diff" % d, cwd=base + "/repo")
             if rc != 0:
+                # made against an earlier tree (a later fix: commit touched the same lines): three-way merge on the blobs
+                sh("git checkout -- . && git clean -fdq", cwd=base + "/repo")
+                rc, out = sh("git apply --3way %spatch.diff && git reset -q" % d, cwd=base + "/repo")
+                if rc == 0:
+                    rc, o2 = sh("go build ./...", cwd=base + "/repo")
+                    out += o2
+            if rc != 0:
                 res = {"applies": False}
                 print(sid, "patch does not apply any more:", out[:200], flush=True)
             else:
@@ -53,6 +60,8 @@ def worker(k):
                 res = {"rc": rc, "lines": lines}
                 print(sid, "caught" if rc else "MISSED", lines[-1][:110] if lines else out[-300:], flush=True)
                 sh("git checkout -- . && git clean -fdq", cwd=base + "/repo")
+            if res.get("applies") is False:
+                sh("git reset -q --hard && git clean -fdq", cwd=base + "/repo")
             with lock:
                 results[sid] = res
     finally:
